@@ -105,3 +105,33 @@ Definition unit_id (u ws W : Z) : Z :=
 Definition valid_unit (u : Z) : Prop := 0 <= u <= 8.
 Definition date_unit (u : Z) : Prop := 3 <= u <= 8.
 Definition wall_of_ord (n : Z) : Z := (n - 1) * us_per_day.
+
+(* first and last wall microsecond of that unit (closed forms; years are unbounded here, representability is a separate question) *)
+Definition unit_lo (u ws W : Z) : Z :=
+  let k := W / us_per_day in
+  let y := f_year W in
+  match u with
+  | 0 => W - W mod 1000000
+  | 1 => W - W mod 60000000
+  | 2 => W - W mod 3600000000
+  | 3 => k * us_per_day
+  | 4 => (k - (k - ws) mod 7) * us_per_day
+  | 5 => wall_of y (f_month W) 1 0 0 0 0
+  | 6 => wall_of y 1 1 0 0 0 0
+  | 7 => wall_of (y - y mod 10) 1 1 0 0 0 0
+  | _ => wall_of (y - 1 - (y - 1) mod 100 + 1) 1 1 0 0 0 0
+  end.
+Definition unit_hi (u ws W : Z) : Z :=
+  let k := W / us_per_day in
+  let y := f_year W in
+  match u with
+  | 0 => W - W mod 1000000 + 999999
+  | 1 => W - W mod 60000000 + 59999999
+  | 2 => W - W mod 3600000000 + 3599999999
+  | 3 => k * us_per_day + (us_per_day - 1)
+  | 4 => (k - (k - ws) mod 7 + 7) * us_per_day - 1
+  | 5 => wall_of y (f_month W) (dim y (f_month W)) 23 59 59 999999
+  | 6 => wall_of y 12 31 23 59 59 999999
+  | 7 => wall_of (y - y mod 10 + 9) 12 31 23 59 59 999999
+  | _ => wall_of (y - 1 - (y - 1) mod 100 + 100) 12 31 23 59 59 999999
+  end.
